@@ -147,11 +147,15 @@ func genLab(t *rapid.T, withPlugin bool, exchanges int) labCfg {
 // ---------------------------------------------------------------------------------------------
 
 type idVal struct {
-	Class  string `json:"class"` // absent | empty | plain | interior-ws | punct | obs-text | unicode | unicode-space-edge | looks-generated | long
-	Quoted string `json:"value,omitempty"`
-	Name   string `json:"sent_as,omitempty"` // field name spelling the client used
+	Class  string   `json:"class"` // absent | empty | plain | interior-ws | punct | obs-text | unicode | unicode-space-edge | looks-generated | long
+	Quoted string   `json:"value,omitempty"`
+	Name   string   `json:"sent_as,omitempty"`             // field name spelling the client used
+	More   []string `json:"further_field_lines,omitempty"` // the client (or an egress proxy in front of it) sent the header as several field lines: these follow the first
 	v      string
 }
+
+// lines are all field lines the client sent for this header, in order.
+func (v idVal) lines() []string { return append([]string{v.v}, v.More...) }
 
 func (v idVal) supplied() bool { return v.Class != "absent" && v.v != "" }
 func (v idVal) present() bool  { return v.Class != "absent" }
@@ -231,6 +235,13 @@ func genIDVal(t *rapid.T, prefix, name string) idVal {
 		v.Name = http.CanonicalHeaderKey(name)
 	}
 	v.Quoted = quote(v.v)
+	// one supplied identifier in ten arrives as two or three field lines (legal HTTP; typical when an egress
+	// proxy adds its own identifier to the client's)
+	if v.v != "" && rapid.IntRange(0, 9).Draw(t, "multiline") == 0 {
+		for i, n := 0, rapid.IntRange(1, 2).Draw(t, "morelines"); i < n; i++ {
+			v.More = append(v.More, rapid.SampledFrom([]string{"egress-proxy-id-9", "B", "second", prefix + "_" + "0123456789abcdef01234567", "x y"}).Draw(t, "moreline"))
+		}
+	}
 	return v
 }
 
